@@ -442,6 +442,37 @@ pub fn cidr_tok(r: &mut StdRng, ip: &IpAddr) -> Tok {
     }
 }
 
+/// a CIDR block whose address has bits set below the prefix length (malformed: must be rejected)
+pub fn cidr_tok_hostbits(r: &mut StdRng, ip: &IpAddr) -> Tok {
+    let mut o = ip_octets(ip);
+    let max = (o.len() * 8) as u8;
+    let len = match r.random_range(0..3) {
+        0 => max - 1,
+        1 => r.random_range(0..max),
+        _ => [0, 7, 8, 9, 24, 31][r.random_range(0..6)].min(max - 1),
+    };
+    if mask(&o, len) == o {
+        // set one host bit: the lowest one, or the one just below the prefix
+        let bit = if r.random_range(0..2) == 0 { max as usize - 1 } else { len as usize };
+        o[bit / 8] |= 0x80u8 >> (bit % 8);
+    }
+    let a = octets_ip(&o);
+    Tok::Cidr { v: o, len, txt: format!("{}/{}", ip_text(r, &a), len) }
+}
+
+/// reversed (lo > hi) or mixed-family address range (malformed)
+pub fn iprange_tok_bad(r: &mut StdRng, a: &IpAddr, b: &IpAddr) -> Option<Tok> {
+    let (oa, ob) = (ip_octets(a), ip_octets(b));
+    if oa.len() != ob.len() {
+        return Some(Tok::Iprange { lo: oa, hi: ob, txt: format!("{}..{}", ip_text(r, a), ip_text(r, b)) });
+    }
+    if oa == ob {
+        return None;
+    }
+    let (lo, hi, la, lb) = if oa > ob { (oa, ob, a, b) } else { (ob, oa, b, a) };
+    Some(Tok::Iprange { lo, hi, txt: format!("{}..{}", ip_text(r, la), ip_text(r, lb)) })
+}
+
 pub fn iprange_tok(r: &mut StdRng, a: &IpAddr, b: &IpAddr) -> Option<Tok> {
     let (oa, ob) = (ip_octets(a), ip_octets(b));
     if oa.len() != ob.len() {
@@ -1089,7 +1120,8 @@ impl<'a> FilterGen<'a> {
                                 1 => a.saturating_add(self.r.random_range(0..5)),
                                 _ => self.int(),
                             };
-                            let (lo, hi) = if a <= b { (a, b) } else { (b, a) };
+                            // one range in sixteen is written reversed (malformed)
+                            let (lo, hi) = if (a <= b) != (a != b && self.r.random_range(0..16) == 0) { (a, b) } else { (b, a) };
                             out.push(Tok::Irange {
                                 lo: limbs(lo),
                                 hi: limbs(hi),
@@ -1172,6 +1204,14 @@ impl<'a> FilterGen<'a> {
                         let a = self.ip();
                         match self.r.random_range(0..3) {
                             0 => out.push(ip_tok(self.r, &a)),
+                            1 if self.r.random_range(0..12) == 0 => out.push(cidr_tok_hostbits(self.r, &a)),
+                            2 if self.r.random_range(0..12) == 0 => {
+                                let b = self.ip();
+                                match iprange_tok_bad(self.r, &a, &b) {
+                                    Some(t) => out.push(t),
+                                    None => out.push(ip_tok(self.r, &a)),
+                                }
+                            }
                             1 => out.push(cidr_tok(self.r, &a)),
                             _ => {
                                 let b = self.ip();
